@@ -49,6 +49,13 @@ def freeform(rng, gen, size, max_depth=100, p_unknown=0.15):
             c = Node(name())
         p.add_child(c, None if rng.random() < 0.7 else rng.randint(0, len(p.children)))
         nodes.append((c, d + 1))
+    for n_, _d in nodes:
+        k_ = rng.random()
+        if k_ < 0.05:
+            n_.prefix = rng.choice(["eml", "stmml", "dc"])                 # a prefix with no binding anywhere
+        elif k_ < 0.1:
+            n_.add_namespace("eml", "https://eml.ecoinformatics.org/eml-2.2.0")
+            n_.prefix = "eml"
     if rng.random() < 0.06:
         # a very wide node: many children of few names under one parent
         p, d = rng.choice(nodes)
